@@ -192,6 +192,78 @@ func (w *workerQ) close() {
 	}
 }
 
+// iterRemove: a walk over the queue (Iterate) is parked inside its callback at the park-th element
+// while Remove(id) is attempted from another goroutine. Returns what the walk saw, whether the
+// removal waited for the walk, and what it returned.
+func (w *workerQ) iterRemove(park, id int) ([]string, int, string) {
+	q := w.q
+	inside, goOn, done := make(chan struct{}), make(chan struct{}), make(chan struct{})
+	var seen []string
+	go func() {
+		defer close(done)
+		idx := 0
+		_ = Catch(func() string {
+			q.Iterate(func(t task.Task) {
+				if idx == park {
+					close(inside)
+					<-goOn
+				}
+				seen = append(seen, taskID(t))
+				idx++
+			})
+			return "-"
+		})
+	}()
+	parked := false
+	select {
+	case <-inside:
+		parked = true
+	case <-done:
+	case <-time.After(5 * time.Second):
+		close(goOn)
+		return nil, 0, "timeout-iterate"
+	}
+	if !parked {
+		close(goOn)
+		return seen, 0, Catch(func() string { return taskID(q.Remove(strconv.Itoa(id))) })
+	}
+	rd := make(chan string, 1)
+	go func() { rd <- Catch(func() string { return taskID(q.Remove(strconv.Itoa(id))) }) }()
+	blocked, ret := 0, ""
+	select {
+	case ret = <-rd:
+	case <-time.After(40 * time.Millisecond):
+		blocked = 1
+	}
+	close(goOn)
+	select {
+	case <-done:
+	case <-time.After(5 * time.Second):
+		return nil, blocked, "timeout-iterate-end"
+	}
+	if blocked == 1 {
+		select {
+		case ret = <-rd:
+		case <-time.After(5 * time.Second):
+			return seen, blocked, "timeout-remove"
+		}
+	}
+	return seen, blocked, ret
+}
+
+// sharedBacking builds the three task lists of a handler result as consecutive sub-slices of ONE
+// backing array with spare capacity behind each of them (what a handler that fills one buffer and
+// slices it hands back): an append to one of them that is not a copy overwrites the next.
+func sharedBacking(h, a, tl []int) ([]task.Task, []task.Task, []task.Task) {
+	buf := make([]task.Task, 0, len(h)+len(a)+len(tl)+16)
+	for _, l := range [][]int{h, a, tl} {
+		for _, i := range l {
+			buf = append(buf, mkTask(i))
+		}
+	}
+	return buf[0:len(h)], buf[len(h) : len(h)+len(a)], buf[len(h)+len(a) : len(h)+len(a)+len(tl)]
+}
+
 func idsTasks(ids []int) []task.Task {
 	var ts []task.Task
 	for _, i := range ids {
@@ -250,8 +322,27 @@ func c05Op(c *Case, w *workerQ, op string, args []int, st string, h, a, tl []int
 		if w.cur == "nil" {
 			ret = "-"
 		} else {
-			ret = w.answer(queue.TaskResult{Status: status, HeadTasks: idsTasks(h), AfterTasks: idsTasks(a), TailTasks: idsTasks(tl)})
+			ht, at, tt := idsTasks(h), idsTasks(a), idsTasks(tl)
+			if len(args) > 0 && args[0] == 1 {
+				ht, at, tt = sharedBacking(h, a, tl)
+				c.Note("result:shared-backing-array")
+			}
+			ret = w.answer(queue.TaskResult{Status: status, HeadTasks: ht, AfterTasks: at, TailTasks: tt})
 		}
+	case "iterRemove":
+		line = fmt.Sprintf("iterRemove %d %d", args[0], args[1])
+		seen, blocked, r := w.iterRemove(args[0], args[1])
+		c.Note("op:" + op)
+		if r == "panic" {
+			w.poisoned = true
+			c.Op(line, "panic")
+			c.Oracle("panic")
+			return
+		}
+		c.Op(line, fmt.Sprintf("seen=%s blocked=%d ", joinStrs(seen), blocked)+qObs(q, w.cur, r))
+		c.Oracle("iter seen=" + joinStrs(seen))
+		c.Oracle(qItems(q))
+		return
 	}
 	c.Note("op:" + op)
 	if ret == "panic" {
@@ -266,7 +357,7 @@ func c05Op(c *Case, w *workerQ, op string, args []int, st string, h, a, tl []int
 }
 
 func runC05(r *Run) {
-	r.Rule = "random histories of the public TaskQueue operations (addFirst/addLast/addAfter/addBefore/remove/removeFirst/removeLast/Filter/Get) over ids 1..4 (ids present, absent, duplicated), interleaved with worker picks and scripted handler results (Success/Keep/Fail/Repeat with head/after/tail tasks) on a real started queue; thorough adds every history of length <= 4 over 2 ids of the slice-level ops. A case is non-trivial when it has >= 3 ops and at least one op addressed an id (addAfter/addBefore/remove/get/result); distinct = distinct op-line sequences."
+	r.Rule = "random histories of the public TaskQueue operations (addFirst/addLast/addAfter/addBefore/remove/removeFirst/removeLast/Filter/Get) over ids 1..4 (ids present, absent, duplicated), a walk (Iterate) parked at its k-th element while Remove is attempted from another goroutine, interleaved with worker picks and scripted handler results (Success/Keep/Fail/Repeat with head/after/tail tasks, in half of the results three slices of one backing array with spare capacity) on a real started queue; thorough adds every history of length <= 4 over 2 ids of the slice-level ops. A case is non-trivial when it has >= 3 ops and at least one op addressed an id (addAfter/addBefore/remove/get/result); distinct = distinct op-line sequences."
 	// corpus: the minimal failing history of the repaired defect (addAfter with an absent id)
 	r.One(0, func(c *Case, _ *Rng) {
 		c.Desc = "corpus: addAfter/addBefore with an absent id"
@@ -289,6 +380,31 @@ func runC05(r *Run) {
 		c05Op(c, w, "remove", []int{1}, "", nil, nil, nil)
 		c05Op(c, w, "result", nil, "success", []int{3}, []int{4}, []int{5})
 		c05Op(c, w, "get", []int{2}, "", nil, nil, nil)
+	})
+	r.One(2, func(c *Case, _ *Rng) {
+		c.Desc = "corpus: a walk over the queue parked at its third element while an earlier task is removed"
+		c.Nontrivial = true
+		w := newWorkerQ("c05-corpus-2")
+		defer w.close()
+		for i := 1; i <= 5; i++ {
+			c05Op(c, w, "addLast", []int{i}, "", nil, nil, nil)
+		}
+		c05Op(c, w, "iterRemove", []int{2, 2}, "", nil, nil, nil)
+		c05Op(c, w, "iterRemove", []int{0, 5}, "", nil, nil, nil)
+		c05Op(c, w, "iterRemove", []int{7, 1}, "", nil, nil, nil)
+	})
+	r.One(3, func(c *Case, _ *Rng) {
+		c.Desc = "corpus: head, after and tail tasks of a result are slices of one backing array"
+		c.Nontrivial = true
+		w := newWorkerQ("c05-corpus-3")
+		defer w.close()
+		for i := 1; i <= 3; i++ {
+			c05Op(c, w, "addLast", []int{i}, "", nil, nil, nil)
+		}
+		c05Op(c, w, "pick", nil, "", nil, nil, nil)
+		c05Op(c, w, "result", []int{1}, "success", []int{11, 12}, []int{13}, []int{14, 15})
+		c05Op(c, w, "pick", nil, "", nil, nil, nil)
+		c05Op(c, w, "result", []int{1}, "keep", []int{21, 22}, nil, []int{24, 25})
 	})
 	n := r.N(3000, 40000)
 	r.Cases(10, n, 0, func(c *Case, rng *Rng) {
@@ -334,9 +450,12 @@ func runC05(r *Run) {
 					}
 				}
 				c05Op(c, w, "filter", keep, "", nil, nil, nil)
-			case k < 82:
+			case k < 80:
 				idOps++
 				c05Op(c, w, "get", []int{id()}, "", nil, nil, nil)
+			case k < 83:
+				idOps++
+				c05Op(c, w, "iterRemove", []int{rng.Intn(4), id()}, "", nil, nil, nil)
 			default:
 				if !withWorker {
 					c05Op(c, w, "addLast", []int{fresh()}, "", nil, nil, nil)
@@ -354,7 +473,11 @@ func runC05(r *Run) {
 						}
 						return l
 					}
-					c05Op(c, w, "result", nil, st, lst(), lst(), lst())
+					var shared []int
+					if rng.Chance(50) {
+						shared = []int{1}
+					}
+					c05Op(c, w, "result", shared, st, lst(), lst(), lst())
 				}
 			}
 		}
